@@ -112,7 +112,47 @@ func wdString(wd gmars.WarriorData, err error) string {
 // once (so that the reported reason could depend on the order in which a table is walked).
 func erroneousText(t *rapid.T) string {
 	var sb strings.Builder
-	switch rapid.IntRange(0, 6).Draw(t, "errk") {
+	switch rapid.IntRange(0, 8).Draw(t, "errk") {
+	case 7, 8:
+		// two limits at once: so many near-limit symbols that their values together exceed what
+		// the table of resolved values may hold, and 0..2 symbols that are too long on their own,
+		// their names sorting before, between or behind the others
+		depth := rapid.SampledFrom([]int{10, 10, 9}).Draw(t, "bdepth") // a10: 4095 tokens, a9: 2047
+		sb.WriteString("a0 equ 1+1\n")
+		for i := 1; i <= depth; i++ {
+			fmt.Fprintf(&sb, "a%d equ a%d+a%d\n", i, i-1, i-1)
+		}
+		fill := rapid.SampledFrom([]int{100, 255, 256, 257, 300, 520}).Draw(t, "bfill")
+		var names []string
+		for i := 0; i < fill; i++ {
+			fmt.Fprintf(&sb, "f%03d equ a%d\n", i, depth)
+			names = append(names, fmt.Sprintf("f%03d", i))
+		}
+		for k := rapid.IntRange(0, 2).Draw(t, "blong"); k > 0; k-- {
+			nm := rapid.SampledFrom([]string{"e000", "f000x", "f127x", "f128x", "f255x", "f299x", "g000"}).Draw(t, "blongname")
+			dup := false
+			for _, o := range names {
+				dup = dup || o == nm
+			}
+			if dup {
+				continue
+			}
+			fmt.Fprintf(&sb, "%s equ a%d+a%d\n", nm, depth, depth)
+			if rapid.Bool().Draw(t, "blongfirst") {
+				names = append([]string{nm}, names...)
+			} else {
+				names = append(names, nm)
+			}
+		}
+		sum := strings.Join(names, "+")
+		switch rapid.IntRange(0, 2).Draw(t, "buse") {
+		case 0:
+			fmt.Fprintf(&sb, "for %s\nnop\nrof\ndat 0, 0\n", sum)
+		case 1:
+			fmt.Fprintf(&sb, "i for 2\nfor %s\nnop\nrof\nrof\ndat 0, 0\n", sum)
+		default:
+			fmt.Fprintf(&sb, "dat %s\n", sum)
+		}
 	case 5: // every symbol is short enough, the FOR count that names one twice is not
 		n := rapid.SampledFrom([]int{2040, 2047, 1500}).Draw(t, "terms")
 		fmt.Fprintf(&sb, "a equ 1%s\n%s a+a%s\ndat 0\nrof\n", strings.Repeat("+1", n), rapid.SampledFrom([]string{"for", "i for", "l i for"}).Draw(t, "head"), rapid.SampledFrom([]string{"", "+a", "-a+1"}).Draw(t, "more"))
@@ -662,7 +702,7 @@ func judgeRepeatCase(c repeatCase, rec *hx.Rec) string {
 func TestC14_Repeat(t *testing.T) {
 	hx.Run(t, hx.Prop[repeatCase]{
 		ID: "C14", Sub: "repeat", Checks: hx.Scale(350, 200000),
-		Rule: "repeatability: one generated text (FOR programs with chained and shared EQUs in their counts two times out of three, C03 programs otherwise) is assembled 5..9 times in one process under one configuration; every result - the warrior, or the error including its text - must equal the first (Go randomises map iteration per range statement, so anything that depends on it shows). One text in six is refused for several reasons at once (several undefined symbols, EQU cycles, several over-long EQU chains), one in six is a mutated program. Non-trivial: the text has an EQU and a FOR, or an EQU and is refused; distinct by case hash.",
+		Rule: "repeatability: one generated text (FOR programs with chained and shared EQUs in their counts two times out of three, C03 programs otherwise) is assembled 5..9 times in one process under one configuration; every result - the warrior, or the error including its text - must equal the first (Go randomises map iteration per range statement, so anything that depends on it shows). One text in six is refused for several reasons at once (several undefined symbols, EQU cycles, several over-long EQU chains, hundreds of near-limit symbols that exhaust the shared budget next to symbols that are too long on their own), one in six is a mutated program. Non-trivial: the text has an EQU and a FOR, or an EQU and is refused; distinct by case hash.",
 		Gen:  genRepeatCase, Judge: judgeRepeatCase,
 	})
 }
